@@ -414,7 +414,7 @@ pub(crate) fn add_int_permutation<W, R, T>(
                 }
             }
             let arr = ret.into_iter().map(|i| ManagedXValue::new(XValue::Int(LazyBigint::from(i)), rt.clone())).collect::<RuntimeResult<Vec<_>>>()?;
-            Ok(manage_native!(XSequence::Array(arr), rt))
+            Ok(manage_native!(XSequence::array(arr), rt))
         }),
     )
 }
@@ -467,7 +467,7 @@ pub(crate) fn add_int_combination<W, R, T>(
                 }
             }
             let arr = ret.into_iter().map(|i| ManagedXValue::new(XValue::Int(LazyBigint::from(i)), rt.clone())).collect::<RuntimeResult<Vec<_>>>()?;
-            Ok(manage_native!(XSequence::Array(arr), rt))
+            Ok(manage_native!(XSequence::array(arr), rt))
         }),
     )
 }
@@ -519,7 +519,7 @@ pub(crate) fn add_int_combination_with_replacement<W, R, T>(
                 }
             }
             let arr = ret.into_iter().map(|i| ManagedXValue::new(XValue::Int(LazyBigint::from(i)), rt.clone())).collect::<RuntimeResult<Vec<_>>>()?;
-            Ok(manage_native!(XSequence::Array(arr), rt))
+            Ok(manage_native!(XSequence::array(arr), rt))
         }),
     )
 }
